@@ -180,6 +180,13 @@ def cost_constants(ctx):
                 if isinstance(x, tuple) and x and x[0] == "agg" and x[1] == "closure" and x[2] in facts.bodies and \
                         facts.bodies[x[2]].local_ty(0) == "f64":
                     cost_fn_ids.add(x[2])
+    # ... or called directly in a push loop: a local function from a character class to f64
+    for bi, t in dist.calls():
+        tgt = t.get("resolved") or t.get("callee")
+        fb_ = facts.bodies.get(tgt)
+        if fb_ is not None and fb_.kind in ("fn", "method") and fb_.local_ty(0) == "f64" and fb_.arg_count >= 1 and \
+                any("CharClass" in fb_.local_ty(i) for i in range(1, fb_.arg_count + 1)):
+            cost_fn_ids.add(fb_.id)
     for fid in sorted(cost_fn_ids):
         fb = facts.bodies[fid]
         if fb.local_ty(0) != "f64":
